@@ -19,7 +19,9 @@ import (
 
 	"github.com/google/pprof/internal/binutils"
 	"github.com/google/pprof/internal/elfexec"
+	"github.com/google/pprof/internal/symbolizer"
 	"github.com/google/pprof/internal/zzverif/vlib"
+	"github.com/google/pprof/profile"
 )
 
 type seg struct {
@@ -56,17 +58,17 @@ type ecase struct {
 	Seg      int        `json:"seg"` // 1-based index of the segment the mapping belongs to
 	Table    []sym      `json:"table"`
 	// kernel images (GenKernel): link addresses are relative to kernelHigh, runtime addresses to the relocation symbol
-	Stext     uint64 `json:"stext"`
-	Text      uint64 `json:"text"`
-	TextSec   uint64 `json:"textsec"`
-	Reloc     string `json:"reloc"`
-	Named     bool   `json:"named"`
-	Mode      string `json:"mode"`
-	Slide     uint64 `json:"slide"`
-	OffMode   string `json:"offmode"`
-	RelocAddr uint64 `json:"relocaddr"`
-	MapSize   uint64 `json:"mapsize"`
-	Queries  []query    `json:"queries"`
+	Stext     uint64  `json:"stext"`
+	Text      uint64  `json:"text"`
+	TextSec   uint64  `json:"textsec"`
+	Reloc     string  `json:"reloc"`
+	Named     bool    `json:"named"`
+	Mode      string  `json:"mode"`
+	Slide     uint64  `json:"slide"`
+	OffMode   string  `json:"offmode"`
+	RelocAddr uint64  `json:"relocaddr"`
+	MapSize   uint64  `json:"mapsize"`
+	Queries   []query `json:"queries"`
 }
 
 const a2lScript = `#!/bin/sh
@@ -366,6 +368,61 @@ func kernelCase(raw json.RawMessage, c *ecase, idx int, nmDir string) {
 	}
 }
 
+type quietUI struct{}
+
+func (quietUI) ReadLine(string) (string, error)     { return "", fmt.Errorf("no input") }
+func (quietUI) Print(...interface{})                {}
+func (quietUI) PrintErr(...interface{})             {}
+func (quietUI) IsTerminal() bool                    { return false }
+func (quietUI) WantBrowser() bool                   { return false }
+func (quietUI) SetAutoComplete(func(string) string) {}
+
+// one shared object loaded TWICE at different biases (two processes in a merged profile, dlmopen): the local symbolizer
+// asks the tools about every location with the link-time address of ITS mapping - the scripted addr2line names the
+// function after the address it is asked about, so the name shows which base was subtracted
+func twoBiasesPart(nmDir string) {
+	path := filepath.Join(dir, "twice.so")
+	if err := writeELF(path, &ecase{Type: "DYN", Layout: []seg{{Off: 0, Vaddr: 0, Filesz: 4096, Memsz: 0x10000, X: true}}}); err != nil {
+		run.Infra(err.Error())
+		return
+	}
+	defer os.Remove(path)
+	os.WriteFile(filepath.Join(nmDir, "table"), nil, 0o644)
+	oldPath := os.Getenv("PATH")
+	os.Setenv("PATH", nmDir)
+	defer os.Setenv("PATH", oldPath)
+	for _, order := range [][2]uint64{{0x7f0000000000, 0x7e0000000000}, {0x7e0000000000, 0x7f0000000000}, {0x7f0000000000, 0x7f0000100000}} {
+		m1 := &profile.Mapping{ID: 1, Start: order[0], Limit: order[0] + 0x10000, File: path, BuildID: "abc123"}
+		m2 := &profile.Mapping{ID: 2, Start: order[1], Limit: order[1] + 0x10000, File: path, BuildID: "abc123"}
+		rel := []uint64{0x2468, 0x1234, 0x2468, 0x3000}
+		maps := []*profile.Mapping{m1, m2, m2, m1}
+		p := &profile.Profile{SampleType: []*profile.ValueType{{Type: "samples", Unit: "count"}}, PeriodType: &profile.ValueType{Type: "cpu", Unit: "ns"}, Period: 1,
+			Mapping: []*profile.Mapping{m1, m2}}
+		for i := range rel {
+			l := &profile.Location{ID: uint64(i + 1), Mapping: maps[i], Address: maps[i].Start + rel[i]}
+			p.Location = append(p.Location, l)
+			p.Sample = append(p.Sample, &profile.Sample{Location: []*profile.Location{l}, Value: []int64{1}})
+		}
+		bu := &binutils.Binutils{}
+		bu.SetTools("addr2line:" + nmDir + ",nm:" + nmDir)
+		sym := &symbolizer.Symbolizer{Obj: bu, UI: quietUI{}}
+		if err := sym.Symbolize("local", nil, p); err != nil {
+			run.Violate("a2l", "two-biases-error", err.Error(), fmt.Sprint(order), nil)
+			continue
+		}
+		run.Count(fmt.Sprintf("two-biases|%x|%x", order[0], order[1]))
+		for i, l := range p.Location {
+			got := ""
+			if len(l.Line) > 0 && l.Line[len(l.Line)-1].Function != nil {
+				got = l.Line[len(l.Line)-1].Function.Name
+			}
+			if want := fmt.Sprintf("s%x", rel[i]); got != want {
+				run.Violate("a2l", "two-biases-wrong-address", fmt.Sprintf("one shared object mapped at %#x and at %#x: the location at %#x (mapping %d, link address %#x) was named %q; the tool asked about the link address answers %q", order[0], order[1], l.Address, l.Mapping.ID, rel[i], got, want), fmt.Sprint(order), nil)
+			}
+		}
+	}
+}
+
 func sigOf(c *ecase, what string) string {
 	return fmt.Sprintf("%s:%s:%dseg", what, c.Type, len(c.Layout))
 }
@@ -565,5 +622,6 @@ func main() {
 			run.Sample(json.RawMessage(raw))
 		}
 	})
+	twoBiasesPart(nmDir)
 	run.Finish("cases = ElfLoad.tla: 10 segment layouts (program headers in vaddr order but not in file order, ld-style page-aligned, lld-style segments sharing file pages, bss, executable segment starting mid page after read-only data, huge-page vaddr gap, executable segments with a zero-filled tail of several pages) x {ET_EXEC, ET_DYN with biases 0 / 5 / 77 pages, optionally plus a 47-bit constant} x page-granular splits of the executable mapping x addresses at segment and page edges, each translated through binutils.Open + ObjAddr in ascending and descending order on one ObjFile; symbol tables of 1-2 (thorough 3) symbols with duplicates, zero sizes, code and data x 12 lookup addresses through a fake nm, and through a scripted addr2line whose names are completed from the nm table (PATH emptied so that no llvm-symbolizer is found); kernel images (GenKernel: 3 layouts x ET_EXEC/ET_DYN x _stext at 0 / 0x198 / 0x1000 / 0x1198 past the text segment x relocation symbol unnamed / _stext / _text x KASLR slides 0 / 64 KiB / 16 MiB with mapping offset 0 / start / ppc64 PAGE_OFFSET, or remapped into page 0) written with a .text section and a symbol table, opened as nm-backed and as addr2line-backed object; non-trivial = distinct (type, layout, mapping, address) / (table, query)")
 }
